@@ -343,7 +343,7 @@ type c43Graphs struct {
 
 func runC43(c *fw.Ctx) {
 	maxN := c.Pick(4, 5)
-	litN := c.Pick(3, 4)
+	litN := 3
 	graphN := 4
 	maxPar := func(n int) int {
 		if n <= 4 {
@@ -361,7 +361,7 @@ func runC43(c *fw.Ctx) {
 	c.Bound("max_commits", maxN)
 	c.Bound("space_upto4", space.Sizes())
 	c.Bound("orders", []string{"default", "DFS", "DFSPost", "BFS", "CTime", "DFSPostFirstParent", "All x each"})
-	c.Bound("limits", "Since in {none, t, t+1}, Until in {none, t-1, t} for every timestamp t present (full product for CTime, one-sided for the other orders); To = every commit, alone and with every Since")
+	c.Bound("limits", "sources DFS, BFS, CTime; Since in {none, t, t+1}, Until in {none, t-1, t} for every timestamp t present (full product for CTime, one-sided for DFS/BFS); To = every commit (alone; with every exact Since for CTime)")
 	c.Bound("all_ref_sets", "branches on every 1- and 2-subset of the commits, HEAD symbolic to the first or detached on every commit")
 	c.Bound("commit_graph", fmt.Sprintf("git-written commit-graph (generation v2) over the complete <=%d-commit space, full and partial (commits 0,1 only); CommitNode iterators CTime/Topo/Date/AuthorDate from every start", graphN))
 	c.Bound("conformance_max_commits", litN)
@@ -545,6 +545,9 @@ func c43Instance(c *fw.Ctx, in *eInst, idx int, fails *eFailSet, untimed, timed,
 		if !timed {
 			continue // limits are exercised in the timed part only (they read timestamps)
 		}
+		if o.name == "DFSPost" || o.name == "DFSPostFirstParent" {
+			continue // the limit wrapper is order-agnostic: DFS, BFS and CTime sources
+		}
 		for s := 0; s < n; s++ {
 			base, ok := full[[2]int{oi, s}]
 			if !ok {
@@ -588,8 +591,8 @@ func c43Instance(c *fw.Ctx, in *eInst, idx int, fails *eFailSet, untimed, timed,
 			// To, alone and with Since
 			for t := 0; t < n; t++ {
 				for _, since := range sinces {
-					if since != 0 && ((since-eBase)%eStep != 0 || lite) {
-						continue
+					if since != 0 && ((since-eBase)%eStep != 0 || lite || !timeDep) {
+						continue // To combined with Since: CTime only
 					}
 					seq, errS := c43Log(r, in, &git.LogOptions{From: in.H[s], Order: o.order, To: in.H[t], Since: tp(since)})
 					c.Eval()
